@@ -23,6 +23,7 @@ var c03Actions = []string{
 	// statements that change nothing: they must not make the transaction forget what it already changed
 	"A.DeleteMany({n:{$lt:0}}) matching nothing", "A.BulkWrite(update and delete of a missing _id)",
 	"C.DropIndexByKey({n:1})",
+	"A.FindOneAndUpdate($inc n) with a rejected projection",
 }
 
 type c03Doc struct{ id, n int32 }
@@ -74,8 +75,15 @@ func c03NewDoc(id int32) bson.D {
 	return bD("_id", id, "n", int32(0), "g", bson.A{bson.A{int32(0), int32(0)}, bson.A{int32(0)}}, "s", bD("t", bson.A{int32(0)}), "h", bD("k", bD("m", bson.A{int32(7), int32(8)})))
 }
 
+// c03Coll is the collection the runner works on; c03Aged makes it start on a database whose change log holds aged
+// events and whose retention trims at every commit (the aged image has documents in d.c, so the runner uses d.k3).
+var (
+	c03Coll = "c"
+	c03Aged = false
+)
+
 func newC03Runner(c *Ctx, st *c03Stats) *c03Runner {
-	w := world.New()
+	w := c09NewWorld(c03Aged)
 	sess, err := w.Client.StartSession()
 	if err != nil {
 		panic(err)
@@ -110,7 +118,7 @@ func findAll(ctx context.Context, coll lungo.ICollection) ([]string, error) {
 }
 
 func txnDump(txn *lungo.Transaction) string {
-	res, err := txn.Find(lungo.Handle{"d", "c"}, &bson.D{}, nil, 0, 0)
+	res, err := txn.Find(lungo.Handle{"d", c03Coll}, &bson.D{}, nil, 0, 0)
 	if err != nil {
 		return "find-error: " + err.Error()
 	}
@@ -119,7 +127,7 @@ func txnDump(txn *lungo.Transaction) string {
 		b, _ := bson.Marshal(d)
 		fmt.Fprintf(&sb, "%x\n", b)
 	}
-	idx, err := txn.ListIndexes(lungo.Handle{"d", "c"})
+	idx, err := txn.ListIndexes(lungo.Handle{"d", c03Coll})
 	if err != nil {
 		return "list-error: " + err.Error()
 	}
@@ -134,7 +142,7 @@ func (r *c03Runner) Step(a int) bool {
 		return false
 	}
 	w := r.w
-	coll := w.C("d", "c")
+	coll := w.C("d", c03Coll)
 	name := c03Actions[a]
 	// writes of the plain client would block while A holds the writer slot: that interleaving belongs to C04/C16
 	if r.open && (a >= 7 && a <= 12 || a == 16) {
@@ -142,7 +150,7 @@ func (r *c03Runner) Step(a int) bool {
 	}
 	if a == 16 {
 		// only where there is something to drop
-		ns := w.Engine.Catalog().Namespaces[lungo.Handle{"d", "c"}]
+		ns := w.Engine.Catalog().Namespaces[lungo.Handle{"d", c03Coll}]
 		if ns == nil || ns.Indexes["n_1"] == nil {
 			return false
 		}
@@ -318,6 +326,12 @@ func (r *c03Runner) Step(a int) bool {
 	case 13:
 		w.Store.FailNext = 1
 		r.fail = true
+	case 17:
+		// fails after the write inside the call: neither this write nor anything the transaction did before is affected
+		err := coll.FindOneAndUpdate(r.sctx, bD(), bD("$inc", bD("n", int32(1))), options.FindOneAndUpdate().SetProjection(bD("n", int32(1), "s", int32(0)))).Err()
+		if err == nil {
+			r.viol("rejected-projection-accepted", "FindOneAndUpdate with projection {n:1,s:0} succeeded")
+		}
 	case 16:
 		_, err := coll.Indexes().DropOneWithKey(w.Ctx, bD("n", int32(1)))
 		if (err != nil) != r.fail {
@@ -325,7 +339,7 @@ func (r *c03Runner) Step(a int) bool {
 		}
 		if err != nil {
 			// the commit was rejected: the index is still there
-			if ns := w.Engine.Catalog().Namespaces[lungo.Handle{"d", "c"}]; ns == nil || ns.Indexes["n_1"] == nil {
+			if ns := w.Engine.Catalog().Namespaces[lungo.Handle{"d", c03Coll}]; ns == nil || ns.Indexes["n_1"] == nil {
 				r.viol("dropindex-after-failed-commit", "DropOneWithKey failed at the store but the index is gone")
 			}
 		}
@@ -452,6 +466,15 @@ func init() {
 			ps.Pruned += p2.Pruned
 			ps.Exhaustive = ps.Exhaustive && p2.Exhaustive
 		}
+		// the same on a database whose change log is over its limits (every commit trims it), one level less deep
+		c03Coll, c03Aged = "k3", true
+		p3 := e1.Paths(len(c03Actions), depth-1, func() e1.Runner { return newC03Runner(c, st) }, r.TooMany)
+		c03Coll, c03Aged = "c", false
+		ps.Paths += p3.Paths
+		ps.Steps += p3.Steps
+		ps.Pruned += p3.Pruned
+		ps.Exhaustive = ps.Exhaustive && p3.Exhaustive
+		r.Set("paths_on_aged_change_log", p3.Paths)
 		r.Set("deep_prefixes", fmt.Sprint(prefixes))
 		r.Set("states", ps.Paths)
 		r.Set("paths", ps.Paths)
